@@ -32,7 +32,8 @@ theorem writesKey_spec {evs : List Ev} {e : Ev} {k : Key} :
 /-- **C02 (read-from).** If `get k` (instance `g`, map step at position `j`) returns
 `some v`, then some `ins k v` (instance `w`) has its map step at a position `i < j`, and no
 `ins k _` / `del k` map step and no `daemon k` lies strictly between `i` and `j`.
-(A `get` returning `none` is always allowed: maintenance may have removed the key.) -/
+(A `get` returning `none` is always allowed: maintenance may have removed the key, or the
+lookup filtered an expired entry; R lets every get respond `none`.) -/
 theorem C02_read_from {evs : List Ev} (hwf : WF evs)
     {j : Nat} {g : Oid} {t : Tid} {k : Key} {v : Val}
     (hstep : evs[j]? = some (.mapStep g)) (hop : opOf evs g = some (t, .get k))
@@ -193,6 +194,11 @@ example : ∃ i w tw, i < 10 ∧ exR[i]? = some (.mapStep w) ∧
 example : WF [.invoke 1 1 (.ins 7 5), .mapStep 1, .invoke 2 2 (.get 7), .daemon 7, .mapStep 2,
     .respond 2 none, .respond 1 none] := by decide
 
+/-- … so is `none` from a filtered lookup while the map holds the value: -/
+example : WF [.invoke 1 1 (.ins 7 5), .mapStep 1, .invoke 2 2 (.get 7), .mapStep 2,
+    .respond 2 none, .respond 1 none, .invoke 2 3 (.get 7), .mapStep 3,
+    .respond 3 (some 5)] := by decide
+
 /-- … while returning the removed value is not: -/
 example : ¬ WF [.invoke 1 1 (.ins 7 5), .mapStep 1, .invoke 2 2 (.get 7), .daemon 7, .mapStep 2,
     .respond 2 (some 5), .respond 1 none] := by decide
@@ -256,9 +262,21 @@ example : acceptR hR = true := acceptR_complete (by decide) (by decide)
 example : acceptR [⟨1, 0, 1, .ins 7 100, none⟩, ⟨1, 2, 3, .ins 7 101, none⟩,
     ⟨2, 4, 5, .get 7, some 100⟩] = false := by decide
 
-/-- A value that was observed absent cannot come back without a new insert. -/
+/-- `none` never constrains (filtered lookup), even between two hits. -/
 example : acceptR [⟨1, 0, 1, .ins 7 100, none⟩, ⟨2, 2, 3, .get 7, none⟩,
-    ⟨3, 4, 5, .get 7, some 100⟩] = false := by decide
+    ⟨3, 4, 5, .get 7, some 100⟩] = true := by decide
+
+/-- A value nobody inserted. -/
+example : acceptR [⟨1, 0, 5, .ins 7 100, none⟩, ⟨2, 1, 2, .get 7, some 101⟩] = false := by
+  decide
+
+/-- A read that completed before the insert began. -/
+example : acceptR [⟨2, 0, 1, .get 7, some 100⟩, ⟨1, 2, 3, .ins 7 100, none⟩] = false := by
+  decide
+
+/-- Overlapping threads are rejected as a malformed record. -/
+example : acceptR [⟨1, 0, 3, .ins 7 100, none⟩, ⟨1, 2, 5, .get 7, some 100⟩] = false := by
+  decide
 
 /-- Read after a completed invalidation. -/
 example : acceptR [⟨1, 0, 1, .ins 7 100, none⟩, ⟨2, 2, 3, .del 7, none⟩,
